@@ -92,6 +92,21 @@ def run(tier):
                               # versions 2 and 3 have no header checksum: marker bytes inside a payload are indistinguishable from a record start there
                               "seeks": [] if fam == "marker" else [0, 8, 9, 100, 4095, 4096, 4097], "damage": ""})
             batches.append(("legacy-v%d-%s" % (ver, fam), recs, cases))
+    # the protobuf access path (package recordio/proto: proto writer, proto reader incl. its deprecated constructors, memory mapped proto reader): the
+    # writer programs WITHOUT a Seek (the proto writer has none), every record a message around the payload; a nil record cannot be expressed (-> EMPTY)
+    noseek = [p for p in progs if not any(h["op"] == "seek" for h in p)]
+    npro = 600 if thorough else 120
+    for fi, fam in enumerate(FAMS if thorough else ["tiny", "marker", "page", "varint"]):
+        recs = riorun.payload_family(fam, rng, bufs=(16, 64, 4096))
+        toks = list(recs)
+        cases = []
+        for p in noseek[fi::max(1, len(noseek) // npro)][:npro]:
+            ops = [dict(op, rec=("EMPTY" if op["rec"] == "NIL" else op["rec"])) for op in riorun.concretize_ops(p, toks, rng)]
+            cases.append({"ops": ops, "comp": len(cases) % 4, "wbuf": [16, 64, 4096, 0, 7][len(cases) % 5], "rbuf": [16, 64, 4096, 0, 5][(len(cases) // 5) % 5], "directio": False, "proto": True,
+                          "readprog": [[0], [1, 0], [0, 1, 1], [0, 0, 1]][len(cases) % 4], "seekall": fam not in ("page", "varint") or len(cases) % 6 == 0,
+                          "seeks": [0, 8, 9, 100, 4095, 4096, 4097], "damage": ""})
+        batches.append(("proto-%s" % fam, recs, cases))
+    o.extra["protobuf_access_path_cases"] = sum(len(b[2]) for b in batches if b[0].startswith("proto-"))
     total = riorun.run_batches(o, binary, batches, "C04")
     total += life_cycles(o, binary, thorough)
     o.evaluations = total
